@@ -98,6 +98,24 @@ func (w *Writer) Close() {
 }
 
 // Die reports a harness-level failure (exit 3: the driver is dead, not the code under test).
+var commitMemo sync.Map
+
+// CommitOnce stores a commit like repo.StoreCommit, once per (repository, tree, parents): StoreCommit stamps the commit with the
+// current time, so that the same history written twice by a harness (once as what a replica holds, once as what a remote serves)
+// would be two histories whenever a second ticks in between.
+func CommitOnce(repo repository.ClockedRepo, tree repository.Hash, parents ...repository.Hash) (repository.Hash, error) {
+	// keyed by the repository's directory (scratch directories are never reused); not for in-memory repositories, which share none
+	key := fmt.Sprintf("%s|%s|%v", repo.LocalStorage().Root(), tree, parents)
+	if h, ok := commitMemo.Load(key); ok {
+		return h.(repository.Hash), nil
+	}
+	h, err := repo.StoreCommit(tree, parents...)
+	if err == nil {
+		commitMemo.Store(key, h)
+	}
+	return h, err
+}
+
 // BeforeExit, when set, runs before Die ends the process (a harness that has to let background work of the code under
 // test come to rest first).
 var BeforeExit func()
